@@ -241,6 +241,10 @@ def run_cases(ctx, cases, drv, with_predicate=True, fields=realenc.FIELDS):
     return keep
 
 
+def work(ctx, cases):
+    run_cases(ctx, cases, Driver())
+
+
 def run(tier, seed, replay=None):
     ctx = Ctx('C02', tier, seed)
     ctx.stats['rule'] = ('24 samples x 3 fields/wavelengths + random lenses (1-12 surfaces; plane, conic, even asphere, '
@@ -250,7 +254,8 @@ def run(tier, seed, replay=None):
     aud = audit('C02')
     drv = Driver()
     cases = [replay] if replay else gen_cases(ctx)
-    run_cases(ctx, cases, drv)
+    from .core import run_parallel
+    run_parallel(ctx, 'harness.c02', 'work', cases, nproc=4 if ctx.quick() else None)
     return finish(ctx, aud,
                   partial=['root-sheet selection for hyperboloids (1+k<0) and Newton-Raphson convergence are numerical only',
                            'Chebyshev normal: derivative formula excluded at |x|=1'],
